@@ -65,6 +65,9 @@ def run_one(args):
     return shard, outs
 
 MISSING = '<missing: implementation output ends here (crash / abort)>'
+IMPL_TIMEOUT = int(os.environ.get('VERIF_IMPL_TIMEOUT', '240'))
+SKIPPED = '<skipped: not run - an earlier operation of the implementation did not return>'
+HUNG = []          # set once an operation of the real crate did not return: the rest of the check does not start the implementation again
 
 def run_impl_resilient(binary, shard):
     """Runs the implementation on a shard. A history that leaves the contract can put the real crate into a state in
@@ -72,21 +75,36 @@ def run_impl_resilient(binary, shard):
     of the aborted one are padded (they count as a divergence only if the history was respecting the contract)."""
     hs = parse_hist(shard)
     out_lines = []
+    if HUNG:
+        for h2, c2, ops2 in hs:
+            out_lines += [h2] + [SKIPPED] * (1 + len(ops2) + 1 + (1 if 'vmem=1' in (c2 or '') else 0))
+        return (125, '\n'.join(out_lines) + '\n', 'skipped: an operation of the implementation does not return')
     start = 0
     err = ''
     rc_all = 0
+    hangs = 0
     while start < len(hs):
         path = shard if start == 0 else shard + f'.resume{start}'
         if start > 0:
             with open(path, 'w') as f:
                 for h, c, ops in hs[start:]:
                     f.write(h + '\n' + (c or '') + '\n' + '\n'.join(ops) + '\n')
-        p = subprocess.run([binary, path], stdout=subprocess.PIPE, stderr=subprocess.PIPE, text=True, errors='replace')
-        lines = p.stdout.split('\n')
+        # an operation that never returns (a busy wait that should not be there) must not hang the check: the history in progress
+        # counts as aborted, the run resumes with the next one; after three such histories the rest of the shard is given up
+        try:
+            p = subprocess.run([binary, path], stdout=subprocess.PIPE, stderr=subprocess.PIPE, text=True, errors='replace', timeout=IMPL_TIMEOUT)
+            stdout, rcode, stderr = p.stdout, p.returncode, p.stderr
+        except subprocess.TimeoutExpired as ex:
+            so = ex.stdout or ''
+            stdout = so.decode('utf-8', 'replace') if isinstance(so, bytes) else so
+            stdout = stdout[:stdout.rfind('\n') + 1]          # drop a partial last line
+            rcode, stderr = -9, f'timeout: the implementation did not finish the shard within {IMPL_TIMEOUT} s (an operation that does not return)'
+            hangs += 1; HUNG.append(path)
+        lines = stdout.split('\n')
         if lines and lines[-1] == '': lines.pop()
-        if p.returncode == 0:
+        if rcode == 0:
             out_lines += lines; break
-        rc_all = p.returncode; err = p.stderr[-1500:]
+        rc_all = rcode; err = stderr[-1500:]
         # how many histories are complete? a complete history has header + init + ops + live lines
         i = 0; k = start
         while k < len(hs):
@@ -99,6 +117,10 @@ def run_impl_resilient(binary, shard):
         got = lines[i:]
         out_lines += lines[:i] + got + [MISSING] * max(0, need - len(got))
         start = k + 1
+        if hangs >= 1:
+            for h2, c2, ops2 in hs[start:]:
+                out_lines += [h2] + [SKIPPED] * (1 + len(ops2) + 1 + (1 if 'vmem=1' in (c2 or '') else 0))
+            break
     return (rc_all, '\n'.join(out_lines) + '\n', err)
 
 def parse_hist(path):
@@ -162,7 +184,7 @@ def compare_shard(suite, shard, outs, stats, divs, maxdiv=200, collect=None, sat
         if len(stats.samples) < 3: stats.samples.append({'cfg': cfg, 'ops': ops[:12]})
         broken = False
         nspec = 0; nstrong = 0
-        was_ok = True; all_ok = True
+        was_ok = True; all_ok = True; gone = False
         rules = True
         ndiv0 = len(divs)
         prev = ''
@@ -197,8 +219,15 @@ def compare_shard(suite, shard, outs, stats, divs, maxdiv=200, collect=None, sat
                 was_ok = s.startswith('+')
                 if not was_ok and not nospec: all_ok = False
             prev = CA_RE.sub('', m.split(' | ev=')[0]).split(' | ', 1)[-1]
-            if i.startswith('<missing') and not s.startswith('+'):
+            if i.startswith('<skipped'): continue          # never run
+            if i.startswith('<missing') and not (s.startswith('+') or nospec):
                 continue       # the process aborted after the history had left the contract: nothing to compare
+            if i.startswith('<missing') and not gone and idx >= 0 and (was_ok or nospec):
+                # the implementation aborted or did not return IN this operation of a history that respects the contract: a departure
+                # from the Spec in its own right (the Spec answers)
+                gone = True
+                if len(divs) < maxdiv * 4 + 400:
+                    divs.append(Div(suite, header, cfg, ops, idx, 'spec', s[2:] if s.startswith('+ ') else m, i)); divs[-1].rules_ok = rules
             if m != i and not broken:
                 broken = True
                 if len(divs) < maxdiv: divs.append(Div(suite, header, cfg, ops, idx, 'tie', m, i)); divs[-1].rules_ok = rules
@@ -220,7 +249,8 @@ def compare_shard(suite, shard, outs, stats, divs, maxdiv=200, collect=None, sat
         # live line: model and impl only
         m, mi = nxt(ml, mi); i, ii = nxt(il, ii)
         got.append(i)
-        if not broken and m != i and not (i.startswith('<missing') and not was_ok) and len(divs) < maxdiv:
+        if i.startswith('<skipped'): pass
+        elif not broken and m != i and not (i.startswith('<missing') and not was_ok) and len(divs) < maxdiv:
             divs.append(Div(suite, header, cfg, ops, len(ops), 'tie', m, i)); divs[-1].rules_ok = rules
         elif broken and m != i and m.startswith('live=') and i.startswith('live=') and all_ok and len(divs) < maxdiv * 4 + 400:
             # the objects still alive at the end (leaks, double destruction) of a history that stayed within the contract: a departure
@@ -229,7 +259,7 @@ def compare_shard(suite, shard, outs, stats, divs, maxdiv=200, collect=None, sat
         if mi < len(ml) and ml[mi].startswith('maps='):
             # vmem: mappings of the buffer's shared object that remain after it was released
             m, mi = nxt(ml, mi); i, ii = nxt(il, ii)
-            if m != i and len(divs) < maxdiv: divs.append(Div(suite, header, cfg, ops, len(ops), 'spec', m, i))
+            if m != i and not i.startswith('<skipped') and len(divs) < maxdiv: divs.append(Div(suite, header, cfg, ops, len(ops), 'spec', m, i))
 
 def run(ctx, seqrun, suites, collect=None, mode='seq', satlog=None):
     """suites: list of (name, model-generator-args). Returns (stats, divergences)."""
